@@ -1,6 +1,8 @@
 package main
 
 import (
+	"bytes"
+
 	"example.com/scion-time/net/ntske"
 
 	"verifharness/lib"
@@ -37,7 +39,9 @@ func runCkEnc(tags string, a []Val) {
 
 // ck.dec: which, bytes, [cookie decoded into] -> ok, [decoded], re-encoding, its decode ok, [its decoding]
 func runCkDec(tags string, a []Val) {
-	ok, d := ckDecode(a[0].Int(), a[2], a[1].B)
+	var ok bool
+	var d Val
+	watchInput(inServerCookie+a[0].Int(), a[1].B, nil, func() { ok, d = ckDecode(a[0].Int(), a[2], a[1].B) })
 	// a decoded cookie, encoded and decoded again (into a fresh struct), is the same cookie
 	re, ok2, d2 := []byte(nil), false, VL()
 	if ok {
@@ -47,23 +51,51 @@ func runCkDec(tags string, a []Val) {
 	w.Case("ck.dec", tags, fmtVals(a), fmtVals([]Val{VBool(ok), d, VBy(re), VBool(ok2), d2}))
 }
 
-// ck.crypt: algo, s2c, c2s, key, keyid -> ok, algo, s2c, c2s, id after
-// EncryptWithNonce, Encode, Decode, Decrypt
+// ck.crypt: algo, s2c, c2s, key, keyid, wrong key -> one encoded encrypted cookie (EncryptWithNonce,
+// Encode) is decoded and decrypted three times FROM THE SAME BYTES: under the wrong key, under the
+// right key, under the right key again:
+// wrong key refused, right key ok, algo, s2c, c2s, id, second time ok and the same cookie,
+// the decoded encrypted cookie encodes to the bytes it was decoded from, the bytes are still what they were
 func runCkCrypt(tags string, a []Val) {
 	c := ntske.ServerCookie{Algo: uint16(a[0].Uint()), S2C: a[1].B, C2S: a[2].B}
-	ok := false
+	key, wrong := a[3].B, a[5].B
 	var out ntske.ServerCookie
 	var id uint16
-	e, err := c.EncryptWithNonce(a[3].B, int(a[4].Int()))
+	refused, ok, again, reenc, intact := false, false, false, false, false
+	// an earlier cookie issued under the same key id with another key must not matter
+	_, _ = c.EncryptWithNonce(wrong, int(a[4].Int()))
+	e, err := c.EncryptWithNonce(key, int(a[4].Int()))
 	if err == nil {
-		var e2 ntske.EncryptedServerCookie
-		if e2.Decode(e.Encode()) == nil {
-			id = e2.ID
-			out, err = e2.Decrypt(a[3].B)
-			ok = err == nil
-		}
+		enc := e.Encode()
+		orig := append([]byte(nil), enc...)
+		watchInput(inEncryptedCookie, enc, wrong, func() {
+			var e1 ntske.EncryptedServerCookie
+			if e1.Decode(enc) == nil {
+				_, err1 := e1.Decrypt(wrong)
+				refused = err1 != nil
+			}
+		})
+		watchInput(inEncryptedCookie, enc, key, func() {
+			var e2 ntske.EncryptedServerCookie
+			if e2.Decode(enc) == nil {
+				id = e2.ID
+				var err2 error
+				out, err2 = e2.Decrypt(key)
+				ok = err2 == nil
+				reenc = bytes.Equal(e2.Encode(), orig)
+			}
+		})
+		watchInput(inEncryptedCookie, enc, key, func() {
+			var e3 ntske.EncryptedServerCookie
+			if e3.Decode(enc) == nil {
+				out3, err3 := e3.Decrypt(key)
+				again = err3 == nil && out3.Algo == out.Algo && bytes.Equal(out3.S2C, out.S2C) && bytes.Equal(out3.C2S, out.C2S)
+			}
+		})
+		intact = bytes.Equal(enc, orig)
 	}
-	w.Case("ck.crypt", tags, fmtVals(a), fmtVals([]Val{VBool(ok), VU(uint64(out.Algo)), VBy(out.S2C), VBy(out.C2S), VU(uint64(id))}))
+	w.Case("ck.crypt", tags, fmtVals(a), fmtVals([]Val{VBool(refused), VBool(ok), VU(uint64(out.Algo)), VBy(out.S2C), VBy(out.C2S), VU(uint64(id)),
+		VBool(again), VBool(reenc), VBool(intact)}))
 }
 
 func genCk0(r *lib.Rng) Val {
@@ -132,6 +164,6 @@ func genCookies(r *lib.Rng, thorough bool) {
 	}
 	for k := 0; k < m; k++ {
 		runCkCrypt("nt,crypt", []Val{VU(genU(r, 16)), VBy(r.Bytes(lib.Pick(r, 32, 32, 0, 1, 64, r.Intn(70)))),
-			VBy(r.Bytes(lib.Pick(r, 32, 32, 0, 64, r.Intn(70)))), VBy(r.Bytes(lib.Pick(r, 32, 32, 64))), VI(r.Range(0, 70000))})
+			VBy(r.Bytes(lib.Pick(r, 32, 32, 0, 64, r.Intn(70)))), VBy(r.Bytes(lib.Pick(r, 32, 32, 64))), VI(r.Range(0, 70000)), VBy(r.Bytes(lib.Pick(r, 32, 64)))})
 	}
 }
